@@ -76,7 +76,9 @@ class Built:
     def cls(self, t):
         y = self.cfg['typ'][t - 1]
         mp = self.cfg['maxpar'][y - 1]
-        return U.TYPES[(y, None if mp >= UNL else mp, 1 if self.cfg['tcache'][y - 1] else 0)]
+        fmt = (self.cfg.get('tfmt') or ['pickle'] * 9)[y - 1]
+        c = 0 if not self.cfg['tcache'][y - 1] else (2 if fmt == 'json' else 1)
+        return U.TYPES[(y, None if mp >= UNL else mp, c)]
 
     def behaviour(self, t):
         b = self.fail_beh if t in self.cfg['fail'] else 'ok'
